@@ -12,6 +12,7 @@ import (
 	"bytes"
 	"context"
 	"crypto/ed25519"
+	"crypto/sha256"
 	"errors"
 	"fmt"
 	"runtime"
@@ -81,11 +82,30 @@ func (h *vC06Home) GetF(cciptypes.Bytes32) (map[cciptypes.ChainSelector]int, err
 	return cp, nil
 }
 
-// ed25519 stub: the signature is valid iff it is the one-byte marker of the key
+// ed25519 stub: a signature is the marker of the key followed by the 32 bytes the signer signed; it verifies iff the
+// marker is the key's and those bytes are exactly the message the controller asks to verify. The harness computes
+// the signed bytes independently (vC06ObsPreimage), so a change of what verifyObservationSignature hashes or
+// prefixes invalidates every honest response.
 type vC06Ed struct{}
 
-func (vC06Ed) Verify(pk ed25519.PublicKey, _, sig []byte) bool {
-	return len(sig) == 2 && sig[0] == 0xED && sig[1] == pk[0]
+const vC06Prefix = "chainlink ccip 1.6 rmn observation"
+
+func (vC06Ed) Verify(pk ed25519.PublicKey, msg, sig []byte) bool {
+	return len(sig) == 34 && sig[0] == 0xED && sig[1] == pk[0] && bytes.Equal(sig[2:], msg)
+}
+
+// sha256(prefix | sha256(observation bytes)), as documented for RMN offchain observation signatures
+func vC06ObsPreimage(ob *rmnpb.Observation) []byte {
+	var obs []byte
+	if ob != nil {
+		var err error
+		if obs, err = proto.Marshal(ob); err != nil {
+			panic(err)
+		}
+	}
+	h1 := sha256.Sum256(obs)
+	h2 := sha256.Sum256(append([]byte(vC06Prefix), h1[:]...))
+	return h2[:]
 }
 
 // RMNCrypto stub: signature (R,S) verifies for the signer address whose id is R[0]; remembers the reports it saw
@@ -217,6 +237,7 @@ type vC06LU struct {
 	mn, mx    uint64
 	rootKind  int // 0 nil, 1 short, 2 exact, 3 long
 	root      uint64
+	shortLen  int // length of a short root (default 5)
 }
 type vC06Body struct {
 	garbage bool
@@ -228,9 +249,13 @@ type vC06Body struct {
 	sel, off, dig   uint64
 	lus             []vC06LU
 	sig             uint64
+	sigEmpty        bool // no signature bytes at all
+	sigOther        bool // the right key's marker over other bytes than this observation
 	// report signature
 	hasSig   bool
 	lenOK    bool
+	rLen     int  // with !lenOK: length of R (0 = 31)
+	sShort   bool // with !lenOK: S has 31 bytes, R is fine
 	by, nonc uint64
 }
 
@@ -241,9 +266,10 @@ func (b *vC06Body) pb() []byte {
 	r := &rmnpb.Response{RequestId: b.rid}
 	switch b.kind {
 	case 1:
-		so := &rmnpb.SignedObservation{Signature: []byte{0xED, byte(b.sig)}}
+		so := &rmnpb.SignedObservation{}
+		var ob *rmnpb.Observation
 		if b.hasObs {
-			ob := &rmnpb.Observation{RmnHomeContractConfigDigest: func() []byte { d := vC06Digest(b.dig); return d[:] }(),
+			ob = &rmnpb.Observation{RmnHomeContractConfigDigest: func() []byte { d := vC06Digest(b.dig); return d[:] }(),
 				Timestamp: 1}
 			if b.hasDest {
 				ob.LaneDest = &rmnpb.LaneDest{DestChainSelector: vC06DestSel[b.sel], OfframpAddress: vC06Offramp(b.off)}
@@ -258,7 +284,12 @@ func (b *vC06Body) pb() []byte {
 				}
 				switch l.rootKind {
 				case 1:
-					lu.Root = []byte{1, 2, 3, 4, byte(l.root)}
+					n := l.shortLen
+					if n <= 0 || n >= 32 {
+						n = 5
+					}
+					lu.Root = make([]byte, n)
+					lu.Root[0], lu.Root[n-1] = 1, byte(l.root)
 				case 2:
 					lu.Root = vC06Root(l.root)
 				case 3:
@@ -268,16 +299,30 @@ func (b *vC06Body) pb() []byte {
 			}
 			so.Observation = ob
 		}
+		if !b.sigEmpty {
+			pre := vC06ObsPreimage(ob)
+			if b.sigOther {
+				pre[0] ^= 0xff
+			}
+			so.Signature = append([]byte{0xED, byte(b.sig)}, pre...)
+		}
 		r.Response = &rmnpb.Response_SignedObservation{SignedObservation: so}
 	case 2:
 		rs := &rmnpb.ReportSignature{}
 		if b.hasSig {
-			n := 32
+			n, m := 32, 32
 			if !b.lenOK {
-				n = 31
+				switch {
+				case b.sShort:
+					m = 31
+				case b.rLen > 0:
+					n = b.rLen
+				default:
+					n = 31
+				}
 			}
 			R := make([]byte, n)
-			S := make([]byte, 32)
+			S := make([]byte, m)
 			R[0], R[1] = byte(b.by), byte(b.nonc)
 			rs.Signature = &rmnpb.EcdsaSignature{R: R, S: S}
 		}
@@ -318,7 +363,11 @@ func (b *vC06Body) coq() string {
 			})
 			ob = cSome(cApp("mkObs", dest, cN(b.dig), lus))
 		}
-		p = cApp("PObs", cApp("mkSO", ob, cN(b.sig)))
+		sg := b.sig
+		if b.sigEmpty || b.sigOther {
+			sg = 0 // no key has marker 0
+		}
+		p = cApp("PObs", cApp("mkSO", ob, cN(sg)))
 	case 2:
 		sg := cNone()
 		if b.hasSig {
@@ -496,6 +545,192 @@ type vC06Gen struct {
 	// With one request per node this is one vote; if a node ever holds two request ids it votes twice.
 	attack              bool
 	attacker, attackChain uint64
+	sweep *vC06Sweep
+}
+
+// ---------------------------------------------------------------- systematic anomaly sweep
+// One honest run in which ONE response (the first one of the chosen phase, from the asked node with the smallest id)
+// carries one anomaly or a pair of anomalies; everybody else, and the same node afterwards where its request is
+// still open, answers correctly.
+type vC06Anom struct {
+	name  string
+	order int // lane-list surgery first (0), lane field surgery next (1), everything else last (2)
+	apply func(g *vC06Gen, b *vC06Body, node *uint64, target vC06Send, any []vC06Send)
+	twice bool
+}
+type vC06Sweep struct {
+	phase int // 0 observations, 1 report signatures
+	anoms []vC06Anom
+	done  bool
+	again *vC06Item
+}
+
+func vC06Last(b *vC06Body) *vC06LU {
+	if len(b.lus) == 0 {
+		return nil
+	}
+	return &b.lus[len(b.lus)-1]
+}
+func vC06First(b *vC06Body) *vC06LU {
+	if len(b.lus) == 0 {
+		return nil
+	}
+	return &b.lus[0]
+}
+func vC06OtherSend(target vC06Send, any []vC06Send) *vC06Send {
+	for i := range any {
+		if any[i].node != target.node {
+			return &any[i]
+		}
+	}
+	return nil
+}
+
+func vC06AnomsA() []vC06Anom {
+	type B = vC06Body
+	onLU := func(name string, sel func(*B) *vC06LU, f func(*vC06LU)) vC06Anom {
+		return vC06Anom{name: name, order: 1, apply: func(_ *vC06Gen, b *B, _ *uint64, _ vC06Send, _ []vC06Send) {
+			if l := sel(b); l != nil {
+				f(l)
+			}
+		}}
+	}
+	plain := func(name string, f func(b *B)) vC06Anom {
+		return vC06Anom{name: name, order: 2, apply: func(_ *vC06Gen, b *B, _ *uint64, _ vC06Send, _ []vC06Send) { f(b) }}
+	}
+	l := []vC06Anom{
+		{name: "extra-unrequested-lane", order: 0, apply: func(g *vC06Gen, b *B, _ *uint64, _ vC06Send, _ []vC06Send) {
+			b.lus = append(b.lus, vC06LU{src: true, ch: 9, onr: 39, itv: true, mn: 1, mx: 2, rootKind: 2, root: 109})
+		}},
+		{name: "extra-unobserved-lane", order: 0, apply: func(g *vC06Gen, b *B, _ *uint64, _ vC06Send, _ []vC06Send) {
+			g.corruptObsK(b, 19)
+		}},
+		{name: "duplicate-lane", order: 0, apply: func(_ *vC06Gen, b *B, _ *uint64, _ vC06Send, _ []vC06Send) {
+			if len(b.lus) > 0 {
+				b.lus = append(b.lus, b.lus[0])
+			}
+		}},
+		{name: "missing-lane", order: 0, apply: func(_ *vC06Gen, b *B, _ *uint64, _ vC06Send, _ []vC06Send) {
+			if len(b.lus) > 0 {
+				b.lus = b.lus[:len(b.lus)-1]
+			}
+		}},
+		{name: "zero-lanes", order: 0, apply: func(_ *vC06Gen, b *B, _ *uint64, _ vC06Send, _ []vC06Send) { b.lus = nil }},
+		onLU("root-nil-last", vC06Last, func(l *vC06LU) { l.rootKind = 0 }),
+		onLU("root-5-last", vC06Last, func(l *vC06LU) { l.rootKind, l.shortLen = 1, 5 }),
+		onLU("root-31-last", vC06Last, func(l *vC06LU) { l.rootKind, l.shortLen = 1, 31 }),
+		onLU("root-33-last", vC06Last, func(l *vC06LU) { l.rootKind = 3 }),
+		onLU("root-nil-first", vC06First, func(l *vC06LU) { l.rootKind = 0 }),
+		onLU("root-5-first", vC06First, func(l *vC06LU) { l.rootKind, l.shortLen = 1, 5 }),
+		onLU("root-33-first", vC06First, func(l *vC06LU) { l.rootKind = 3 }),
+		onLU("nil-lanesource-last", vC06Last, func(l *vC06LU) { l.src = false }),
+		onLU("nil-interval-last", vC06Last, func(l *vC06LU) { l.itv = false }),
+		onLU("nil-lanesource-first", vC06First, func(l *vC06LU) { l.src = false }),
+		onLU("nil-interval-first", vC06First, func(l *vC06LU) { l.itv = false }),
+		onLU("min-plus-one", vC06First, func(l *vC06LU) { l.mn++ }),
+		onLU("max-minus-one", vC06First, func(l *vC06LU) { l.mx-- }),
+		onLU("onramp-differs", vC06Last, func(l *vC06LU) { l.onr++ }),
+		onLU("conflicting-root", vC06First, func(l *vC06LU) { l.root = 200 + l.ch }),
+		onLU("empty-root", vC06First, func(l *vC06LU) { l.root = 0 }),
+		plain("nil-observation", func(b *B) { b.hasObs = false }),
+		plain("nil-lanedest", func(b *B) { b.hasDest = false }),
+		plain("wrong-dest-selector", func(b *B) { b.sel = 3 - b.sel }),
+		plain("wrong-offramp", func(b *B) { b.off++ }),
+		plain("wrong-digest", func(b *B) { b.dig++ }),
+		plain("signature-of-other-key", func(b *B) { b.sig++ }),
+		plain("signature-over-other-bytes", func(b *B) { b.sigOther = true }),
+		plain("empty-signature", func(b *B) { b.sigEmpty = true }),
+		plain("no-payload", func(b *B) { b.kind = 0 }),
+		plain("signature-payload", func(b *B) { b.kind, b.hasSig, b.lenOK, b.by = 2, true, true, 1 }),
+		plain("garbage", func(b *B) { b.garbage = true }),
+		plain("unknown-id", func(b *B) { b.rid, b.iid = 0xDEAD0001, 901 }),
+		{name: "foreign-id", order: 2, apply: func(_ *vC06Gen, b *B, _ *uint64, t vC06Send, any []vC06Send) {
+			if o := vC06OtherSend(t, any); o != nil {
+				b.rid, b.iid = o.rid, o.iid
+			}
+		}},
+		{name: "sender-unknown-node", order: 2, apply: func(_ *vC06Gen, _ *B, n *uint64, _ vC06Send, _ []vC06Send) { *n = 55 }},
+		{name: "sender-other-node", order: 2, apply: func(_ *vC06Gen, _ *B, n *uint64, t vC06Send, any []vC06Send) {
+			if o := vC06OtherSend(t, any); o != nil {
+				*n = o.node
+			}
+		}},
+		{name: "answers-twice", order: 2, twice: true, apply: func(_ *vC06Gen, _ *B, _ *uint64, _ vC06Send, _ []vC06Send) {}},
+	}
+	return l
+}
+
+func vC06AnomsB() []vC06Anom {
+	type B = vC06Body
+	plain := func(name string, f func(b *B)) vC06Anom {
+		return vC06Anom{name: name, order: 2, apply: func(_ *vC06Gen, b *B, _ *uint64, _ vC06Send, _ []vC06Send) { f(b) }}
+	}
+	return []vC06Anom{
+		plain("nil-signature", func(b *B) { b.hasSig = false }),
+		plain("R-31", func(b *B) { b.lenOK, b.rLen = false, 31 }),
+		plain("R-33", func(b *B) { b.lenOK, b.rLen = false, 33 }),
+		plain("R-2", func(b *B) { b.lenOK, b.rLen = false, 2 }),
+		plain("S-31", func(b *B) { b.lenOK, b.sShort = false, true }),
+		plain("signature-of-other-signer", func(b *B) { b.by = b.by%60 + 1 }),
+		plain("no-payload", func(b *B) { b.kind = 0 }),
+		plain("observation-payload", func(b *B) { b.kind, b.hasObs, b.hasDest = 1, true, true }),
+		plain("garbage", func(b *B) { b.garbage = true }),
+		plain("unknown-id", func(b *B) { b.rid, b.iid = 0xDEAD0002, 902 }),
+		{name: "foreign-id", order: 2, apply: func(_ *vC06Gen, b *B, _ *uint64, t vC06Send, any []vC06Send) {
+			if o := vC06OtherSend(t, any); o != nil {
+				b.rid, b.iid = o.rid, o.iid
+			}
+		}},
+		{name: "sender-unknown-node", order: 2, apply: func(_ *vC06Gen, _ *B, n *uint64, _ vC06Send, _ []vC06Send) { *n = 55 }},
+		{name: "sender-other-node", order: 2, apply: func(_ *vC06Gen, _ *B, n *uint64, t vC06Send, any []vC06Send) {
+			if o := vC06OtherSend(t, any); o != nil {
+				*n = o.node
+			}
+		}},
+		{name: "answers-twice", order: 2, twice: true, apply: func(_ *vC06Gen, _ *B, _ *uint64, _ vC06Send, _ []vC06Send) {}},
+	}
+}
+
+// sweepNext: the scripted behaviour of a sweep run
+func (g *vC06Gen) sweepNext(phaseB bool, open, any []vC06Send, mk func(uint64, vC06Send) vC06Body) (uint64, vC06Body, string) {
+	sw := g.sweep
+	if sw.again != nil {
+		it := sw.again
+		sw.again = nil
+		return it.node, it.body, "again"
+	}
+	if len(open) == 0 {
+		return vPick(g.r, g.c.nodes).id, vC06Body{garbage: true}, "garbage"
+	}
+	t := open[0]
+	now := 0
+	if phaseB {
+		now = 1
+	}
+	if sw.done || sw.phase != now {
+		g.used[t.iid] = true
+		return t.node, mk(t.node, t), "good"
+	}
+	sw.done = true
+	b := mk(t.node, t)
+	node := t.node
+	as := append([]vC06Anom(nil), sw.anoms...)
+	sort.SliceStable(as, func(i, j int) bool { return as[i].order < as[j].order })
+	name := ""
+	for _, a := range as {
+		a.apply(g, &b, &node, t, any)
+		name += "+" + a.name
+		if a.twice {
+			sw.again = &vC06Item{node: node, body: b}
+		}
+	}
+	if sw.again != nil { // deliver the final form twice
+		sw.again = &vC06Item{node: node, body: b}
+	}
+	if node == t.node && !b.garbage && b.iid == t.iid {
+		g.used[t.iid] = true // the request is answered (well or badly); otherwise the node answers it later
+	}
+	return node, b, "anomaly:" + name[1:]
 }
 
 func (g *vC06Gen) goodObs(node uint64, s vC06Send) vC06Body {
@@ -516,7 +751,7 @@ func (g *vC06Gen) goodObs(node uint64, s vC06Send) vC06Body {
 }
 
 // corrupt one aspect of an otherwise correct observation
-func (g *vC06Gen) corruptObs(b *vC06Body) string { return g.corruptObsK(b, g.r.Intn(24)) }
+func (g *vC06Gen) corruptObs(b *vC06Body) string { return g.corruptObsK(b, g.r.Intn(26)) }
 
 func (g *vC06Gen) corruptObsK(b *vC06Body, k int) string {
 	r := g.r
@@ -610,6 +845,12 @@ func (g *vC06Gen) corruptObsK(b *vC06Body, k int) string {
 			b.lus = b.lus[:len(b.lus)-1]
 			return "lane-subset"
 		}
+	case 24:
+		b.sigOther = true
+		return "signature-over-other-bytes"
+	case 25:
+		b.sigEmpty = true
+		return "empty-signature"
 	case 22, 23:
 		// a correctly signed observation without any lane update: validation accepts it; the comparator of
 		// transformAndSortObservations would index FixedDestLaneUpdates[0] of it if the same node had a second
@@ -710,6 +951,9 @@ func (g *vC06Gen) next(sends []vC06Send) (node uint64, body vC06Body, cls string
 			return g.corruptSig(b)
 		}
 		return g.corruptObs(b)
+	}
+	if g.sweep != nil {
+		return g.sweepNext(phaseB, open, any, mk)
 	}
 	if g.attack && !phaseB {
 		observes := func(n, ch uint64) bool {
@@ -851,8 +1095,11 @@ func (it vC06Item) coq() string {
 	return "IRaceCancel"
 }
 
-func vC06Run(r *vRand, cfgCls string, maxItems int, watchdog time.Duration) (coq string, cls string, nt bool, show map[string]any) {
+func vC06Run(r *vRand, cfgCls string, maxItems int, watchdog time.Duration, sweep *vC06Sweep) (coq string, cls string, nt bool, show map[string]any) {
 	c := vC06GenCfg(r, cfgCls)
+	if sweep != nil {
+		c.byzantine = map[uint64]bool{}
+	}
 	// the real inputs
 	home := &vC06Home{f: map[cciptypes.ChainSelector]int{}}
 	for _, n := range c.nodes {
@@ -881,6 +1128,9 @@ func vC06Run(r *vRand, cfgCls string, maxItems int, watchdog time.Duration) (coq
 
 	// schedule parameters owned by the harness
 	failCls := r.Intn(8) // 0..4 none, 5..6 some, 7 many
+	if sweep != nil {
+		failCls = 0
+	}
 	fails := make([]bool, 40)
 	for i := range fails {
 		fails[i] = (failCls >= 5 && failCls <= 6 && r.Chance(1, 5)) || (failCls == 7 && r.Chance(2, 3))
@@ -896,7 +1146,7 @@ func vC06Run(r *vRand, cfgCls string, maxItems int, watchdog time.Duration) (coq
 		return time.Hour
 	}
 	ctl := &controller{lggr: logger.Nop(), rmnCrypto: crypto, peerClient: peer, rmnHomeReader: home,
-		ed25519Verifier: vC06Ed{}, observationsInitialRequestTimerDuration: dur(c.dueA),
+		ed25519Verifier: vC06Ed{}, signObservationPrefix: vC06Prefix, observationsInitialRequestTimerDuration: dur(c.dueA),
 		reportsInitialRequestTimerDuration: dur(c.dueB)}
 
 	gen := &vC06Gen{r: r, c: c, used: map[uint64]bool{}, honest: vPick(r, []int{97, 92, 85, 70, 40, 15}),
@@ -946,7 +1196,10 @@ func vC06Run(r *vRand, cfgCls string, maxItems int, watchdog time.Duration) (coq
 			}
 		}
 	}
-	if r.Chance(1, 25) { // context already cancelled when the first select is entered
+	if sweep != nil {
+		gen.sweep, gen.attack, gen.villainA, gen.villainB, cancelAt = sweep, false, -1, -1, -1
+	}
+	if sweep == nil && r.Chance(1, 25) { // context already cancelled when the first select is entered
 		peer.cancelAtNext = true
 		items = append(items, vC06Item{kind: 3})
 		classes = append(classes, "race-cancel")
@@ -1033,7 +1286,7 @@ func vC06Run(r *vRand, cfgCls string, maxItems int, watchdog time.Duration) (coq
 		gen.sentBy = append(gen.sentBy, node)
 		// optionally prepare a race partner for the select entry that follows this delivery
 		var partner *vC06Item
-		if r.Chance(1, 7) {
+		if sweep == nil && r.Chance(1, 7) {
 			if r.Chance(1, 4) {
 				partner = &vC06Item{kind: 3}
 				peer.mu.Lock()
@@ -1200,7 +1453,7 @@ func TestVerif_C06(t *testing.T) {
 		if only >= 0 && i != only {
 			continue
 		}
-		coq, cls, nt, show := vC06Run(cr, cfgCls, 4+cr.Intn(24), 3*time.Second)
+		coq, cls, nt, show := vC06Run(cr, cfgCls, 4+cr.Intn(24), 3*time.Second, nil)
 		for _, c := range show["classes"].([]string) {
 			hist[c]++
 		}
@@ -1218,4 +1471,46 @@ func TestVerif_C06(t *testing.T) {
 		keys += k + "=" + strconv.Itoa(v) + " "
 	}
 	t.Log("response classes: " + keys)
+}
+
+// TestVerif_C06_sweep: every single anomaly and every PAIR of anomalies of the lists above, in both phases, each on
+// VERIF_N random configurations. The judge is the same as for the random schedules: the implementation must reject /
+// ignore / accept the anomalous response exactly as the model does, never panic (kind 9) and never hang (kind 10).
+func TestVerif_C06_sweep(t *testing.T) {
+	defer runtime.GOMAXPROCS(runtime.GOMAXPROCS(1))
+	r := vNewRand(vSeed() + 77)
+	reps := vEnvInt("VERIF_N", 1)
+	only := vReplayOnly()
+	sink := vOpenSink("C06_sweep")
+	defer sink.Close()
+	i, hangs := 0, 0
+	for phase, list := range [][]vC06Anom{vC06AnomsA(), vC06AnomsB()} {
+		for a := 0; a < len(list); a++ {
+			for b := a; b < len(list); b++ {
+				for k := 0; k < reps; k++ {
+					cr := vNewRand(r.U64())
+					idx := i
+					i++
+					if only >= 0 && idx != only {
+						continue
+					}
+					sw := &vC06Sweep{phase: phase, anoms: []vC06Anom{list[a]}}
+					if b != a {
+						sw.anoms = append(sw.anoms, list[b])
+					}
+					coq, cls, nt, show := vC06Run(cr, "ok", 14, 3*time.Second, sw)
+					name := list[a].name
+					if b != a {
+						name += "+" + list[b].name
+					}
+					sink.Emit("C06_sweep", fmt.Sprintf("%c:%s/%s", "AB"[phase], name, cls), nt, coq, show)
+					if show["kind"].(uint64) == 10 {
+						if hangs++; hangs >= 3 {
+							return
+						}
+					}
+				}
+			}
+		}
+	}
 }
